@@ -84,7 +84,7 @@ func (g *vhStream) Read(p []byte) (int, error) {
 // concatenation and the final error depend only on the stream content.
 //
 //verif:prop C09
-//verif:param total quick=0..5 thorough=0..7
+//verif:param total quick=0..5 thorough=0..6
 //verif:param failure 0..1
 //verif:param zeros quick=0 thorough=0..1
 //verif:maxdec 100000
@@ -221,9 +221,9 @@ func VH_C02_PassThrough(total, failure int) {
 // is buffered (assertion inside the scripted Read), under every schedule.
 //
 //verif:prop C11
-//verif:param total quick=0..5 thorough=0..7
+//verif:param total quick=0..5 thorough=0..6
 //verif:param failure 0
-//verif:param zeros quick=0 thorough=0..1
+//verif:param zeros quick=0 thorough=0
 //verif:maxdec 100000
 //verif:bufsensitive
 func VH_C11_ReadLine(total, failure, zeros int) { VH_C09_ReadLine(total, failure, zeros) }
@@ -232,7 +232,7 @@ func VH_C11_ReadLine(total, failure, zeros int) { VH_C09_ReadLine(total, failure
 // time the source is asked for more (assertion inside the scripted Read).
 //
 //verif:prop C11
-//verif:param total quick=0..4 thorough=0..6
+//verif:param total quick=0..4 thorough=0..5
 //verif:param failure 0
 //verif:maxdec 100000
 //verif:bufsensitive
